@@ -39,7 +39,12 @@ impl<T: DatabaseConnection> DatabaseManager for T {
 
     /// Generic method to store data into the database.
     fn store_data<P: Params>(&self, query: &str, params: P) -> Result<(), Error> {
-        match self.get_connection().execute(query, params) {
+        #[cfg(feature = "verif-hooks")]
+        crate::verif::crash_point("store:pre");
+        let res = self.get_connection().execute(query, params);
+        #[cfg(feature = "verif-hooks")]
+        crate::verif::crash_point("store:post");
+        match res {
             Ok(_) => Ok(()),
             Err(e) => match e {
                 SqliteError::SqliteFailure(ie, _) => match ie.code {
@@ -57,7 +62,12 @@ impl<T: DatabaseConnection> DatabaseManager for T {
 
     /// Generic method to remove data from the database.
     fn remove_data<P: Params>(&self, query: &str, params: P) -> Result<(), Error> {
-        match self.get_connection().execute(query, params).unwrap() {
+        #[cfg(feature = "verif-hooks")]
+        crate::verif::crash_point("write:pre");
+        let res = self.get_connection().execute(query, params);
+        #[cfg(feature = "verif-hooks")]
+        crate::verif::crash_point("write:post");
+        match res.unwrap() {
             0 => Err(Error::NotFound),
             _ => Ok(()),
         }
